@@ -258,3 +258,65 @@ Theorem C06_restart_settles : forall rank evs0 w ps,
               end.
 Proof. exact restart_settles. Qed.
 Print Assumptions C06_restart_settles.
+
+(* ---------- the restart hypothesis, derived from reachability ---------- *)
+From Verif Require Import Proofs.CtrlExactP.
+
+(* at every quiescent point of every history a Service without explicit request holds
+   nothing, or addresses that its request and the configuration admit and that memory
+   records exactly as the status lists them *)
+Theorem C06_quiescent_service_is_settled : forall rank evs w s o,
+  wrun rank evs world0 = Some w -> quiescent w -> aget (w_api w) s = Some o ->
+  pools_wf (w_ctl w) -> o_want o = WNone ->
+  (pempty w s o \/ pgood rank w s o) /\
+  match get_alloc (c_mem (w_ctl w)) s with Some al => a_ips al | None => [] end = o_status o.
+Proof. exact quiescent_settled. Qed.
+
+(* hence the joint-admissibility hypothesis of C06_restart_keeps_recorded holds at every
+   quiescent reachable world ... *)
+Theorem C06_quiescent_recorded_ok : forall rank evs w,
+  wrun rank evs world0 = Some w -> quiescent w -> pools_wf (w_ctl w) ->
+  forall s o, recd (w_api w) s o -> o_want o = WNone ->
+    additional_applies (o_req o) (o_status o) = false ->
+    recorded_ok rank (c_mem (w_ctl w)) s o.
+Proof. exact quiescent_recorded_ok. Qed.
+
+(* ... and a controller that restarts at a quiescent point, is given the same configuration
+   again and runs its first full pass (in any admitted order, with any allocator choices,
+   after any early Service events) keeps every recorded address.  Remaining hypotheses:
+   no explicitly requested addresses; no PreferDualStack Service holding a single address
+   (necessary: C06_restart_prefer_single_address_refuted, F14). *)
+Theorem C06_restart_at_quiescence_keeps_all : forall rank evs0 w evs order ks wc wp we w',
+  wrun rank evs0 world0 = Some w -> quiescent w -> pools_wf (w_ctl w) ->
+  (forall s o, aget (w_api w) s = Some o -> o_want o = WNone) ->
+  (forall s o, aget (w_api w) s = Some o -> o_status o <> [] -> additional_applies (o_req o) (o_status o) = false) ->
+  wstep rank w ECrash = Some wc -> wstep rank wc (EPools (s_pools (c_mem (w_ctl w)))) = Some wp ->
+  (forall s k, In (s, k) evs -> aget (w_api w) s <> None) -> early rank wp evs = Some we ->
+  wstep rank we (EReload order ks) = Some w' ->
+  forall s o, aget (w_api w) s = Some o -> o_status o <> [] ->
+    (exists o', aget (w_api w') s = Some o' /\ same_ips (o_status o') (o_status o)) /\
+    same_ips (ips_of (c_mem (w_ctl w')) s) (o_status o).
+Proof. exact restart_at_quiescence_keeps_all. Qed.
+Print Assumptions C06_restart_at_quiescence_keeps_all.
+
+(* its hypotheses are met by the reachable quiescent world of the Examples above (two
+   Services holding addresses) *)
+Example C06_restart_at_quiescence_nonvacuous :
+  exists w, wrun yrank yevs_ok world0 = Some w /\ quiescent w /\ pools_wf (w_ctl w) /\
+    (forall s o, aget (w_api w) s = Some o -> o_want o = WNone) /\
+    (forall s o, aget (w_api w) s = Some o -> o_status o <> [] -> additional_applies (o_req o) (o_status o) = false) /\
+    (exists s o, aget (w_api w) s = Some o /\ o_status o <> []).
+Proof.
+  destruct (wrun yrank yevs_ok world0) as [w|] eqn:E; [|vm_compute in E; discriminate].
+  exists w. vm_compute in E. injection E as <-.
+  split; [reflexivity|]. split; [repeat split|]. split.
+  { split; [repeat constructor; intros []|]. intros p q x [<-|[]] [<-|[]] _ _. reflexivity. }
+  assert (H : forall s o, aget [(2, with_status v4only [v4a] (Some 1)); (1, with_status six [v6a] (Some 1))] s = Some o ->
+              o = with_status v4only [v4a] (Some 1) \/ o = with_status six [v6a] (Some 1)).
+  { intros s o. unfold aget. cbn [find fst snd option_map].
+    destruct (2 =? s); [intros [= <-]; left; reflexivity|]. destruct (1 =? s); [intros [= <-]; right; reflexivity|discriminate]. }
+  split; [|split].
+  - intros s o Ho. destruct (H s o Ho) as [->| ->]; reflexivity.
+  - intros s o Ho _. destruct (H s o Ho) as [->| ->]; reflexivity.
+  - exists 1, (with_status six [v6a] (Some 1)). split; [reflexivity|discriminate].
+Qed.
